@@ -34,13 +34,27 @@ def gen_case(rng, tier):
             queries.append(q)
     if len(queries) > (22 if tier == "quick" else 80):
         queries = queries[:2] + rng.sample(queries[2:], 20 if tier == "quick" else 78)
-    return {"prune": prune, "writes": writes, "m": m, "queries": queries}
+    # second phase: the trie changes AFTER the iterator was used (directly, or through one squash_changes block - the root then
+    # moves without a set / delete on the trie object itself), and the questions are asked again
+    m2 = dict(m)
+    writes2 = []
+    for _ in range(rng.randint(1, 3)):
+        wr = HX.gen_write(rng, m2.keys(), long_pool)
+        if wr[0] == "set" and wr[2] != b"" and rng.random() < 0.5 and m2:
+            wr = ("set", bytes([max(0, min(sorted(m2)[0][0] - 1, 255))]) if sorted(m2)[0] else b"\x00", wr[2], wr[3])   # a new smallest key
+        writes2.append(wr)
+        HX.apply_model(m2, wr)
+    return {"prune": prune, "writes": writes, "m": m, "queries": queries, "writes2": writes2, "m2": m2, "batched2": rng.random() < 0.6,
+            "queries2": [None] + [q for q in queries[1:] if rng.random() < 0.3][:6] + sorted(set(m) ^ set(m2))[:3]}
 
 
 def run_case(case):
     w = WX.Walker(case["prune"], True)
     ops = [("trie", x) for x in case["writes"]] + [("iter_next", q) for q in case["queries"]]
     ops += [("iter_items",), ("iter_nodes",)]
+    if case.get("writes2"):
+        ops += [("trie", ("batch", case["writes2"], None))] if case["batched2"] else [("trie", x) for x in case["writes2"]]
+        ops += [("iter_next", q) for q in case["queries2"]] + [("iter_items",)]
     outs = [w.step(op) for op in ops]
     # keys() and values() are projections of items(); check them directly
     from trie.iter import NodeIterator
@@ -56,7 +70,7 @@ def interleaved_walks(case, trie_a):
     import itertools
     from trie import HexaryTrie
     from trie.iter import NodeIterator
-    m = case["m"]
+    m = case["m2"] if case.get("writes2") else case["m"]      # the trie's contents when the walks are made
     if len(m) < 2:
         return None
     m2 = {}
@@ -112,7 +126,8 @@ def oracle(case, ops, outs, ks, vs):
         return f"items() raised {items!r}"
     if items != [[k, m[k]] for k in skeys]:
         return "items() is not the stored pairs in ascending key order"
-    if ks != skeys or vs != [m[k] for k in skeys]:
+    mk = case["m2"] if case.get("writes2") else m          # keys()/values() are taken at the end of the run
+    if ks != sorted(mk) or vs != [mk[k] for k in sorted(mk)]:
         return "keys()/values() are not the projections of the sorted contents"
     nodes = outs[nw + len(case["queries"]) + 1]
     if isinstance(nodes, Exc):
@@ -122,6 +137,17 @@ def oracle(case, ops, outs, ks, vs):
         return "nodes() yields a node twice"
     if prefixes != sorted(prefixes):
         return "nodes() is not parents-first / left-to-right (prefixes not in ascending tuple order)"
+    if case.get("writes2"):
+        m2 = case["m2"]
+        s2 = sorted(m2)
+        base = nw + len(case["queries"]) + 2 + (1 if case["batched2"] else len(case["writes2"]))
+        for q, out in zip(case["queries2"], outs[base:]):
+            exp = (s2[0] if s2 else None) if q is None else next((k for k in s2 if k > q), None)
+            if out != exp:
+                return f"after the trie changed ({'one squash_changes block' if case['batched2'] else 'direct writes'}): next({q!r}) = {out!r}, expected {exp!r}"
+        items2 = outs[base + len(case["queries2"])]
+        if isinstance(items2, Exc) or items2 != [[k, m2[k]] for k in s2]:
+            return "after the trie changed: items() is not the stored pairs in ascending key order"
     return None
 
 
